@@ -5,7 +5,7 @@
    UpdateMaxProbe never under-approximates, the growth policy does not shrink / probing reaches every bucket,
    CalcCapacity <= physical size); they are proved below for the kinds used by the extracted model. *)
 From Coq Require Import ZArith List Bool Permutation.
-From C11 Require Import GrowModel GenTie GenGrow GenFull GenFullP4 GenMove GenSame GenFacts GenFind GenClear TableRel RemoveIfInterp.
+From C11 Require Import GrowModel GenTie GenGrow GenFull GenFullP4 GenMove GenSame GenFacts GenFind GenClear TableRel RemoveIfInterp IterInterp.
 Import ListNotations.
 Local Open Scope Z_scope.
 
@@ -817,6 +817,36 @@ Theorem C11_gen_clear_is_hclear :
            cap' = capacity B s /\ (exists t : table B, hd_error (gens B s) = Some t /\ gens B s' = [clearT B b0 wf0 t]))).
 Proof. exact gen_clear_is_hclear. Qed.
 Print Assumptions C11_gen_clear_is_hclear.
+
+(* The iterator machine rests on the source.  The statements of HashSetConstIterator::pvMove and ::pvInc are read off the clang AST on every run (astfacts.py -> Gen_RelocFacts.iter_move_stmts / iter_inc_stmts) and interpreted on the model's iterator state (IterInterp.v: mBuckets = head of the chain the iterator stands on, bucket index, bucket iterator as offset from GetBegin): the `while (true)` loop (++bucketIndex; break when out of range; bounds of that bucket; if it has items ptReset to its last item and return), then `nextBuckets = mBuckets->GetNextBuckets(); if (nextBuckets != nullptr) { mBuckets = nextBuckets; ptReset(0, bounds(0).GetEnd()); return pvInc(); }`, else the end iterator.  The mutual recursion is accepted only after mBuckets moved to the next table (well-founded on the chain).  The interpretation of the CURRENT source equals the hand model's pv_move for every chain and bucket index. *)
+Theorem C11_pv_move_is_interpreted_source :
+  forall (B : Type) (b0 : B) (wf0 : bool) (gs : list (table B)) (bi : nat),
+         interp_move B b0 wf0 src_inc src_move gs bi = Some (pv_move B b0 wf0 gs bi).
+Proof. exact pv_move_is_interpreted_source. Qed.
+Print Assumptions C11_pv_move_is_interpreted_source.
+
+(* ... and the interpreted pvInc (`if (bucketIter != bounds(bucketIndex).GetBegin()) ptReset(bucketIndex, prev(bucketIter)); else pvMove();`) equals the hand model's pv_inc.  C11_iterator_traversal_once, C11_traversal_once (through the machine) and the re-positioning inside Remove(iter) are therefore about the interpreted source. *)
+Theorem C11_pv_inc_is_interpreted_source :
+  forall (B : Type) (b0 : B) (wf0 : bool) (gs : list (table B)) (bi p : nat),
+         interp_inc B src_inc (fun b : nat => interp_move B b0 wf0 src_inc src_move gs b) gs bi p = Some (pv_inc B b0 wf0 gs bi p).
+Proof. exact pv_inc_is_interpreted_source. Qed.
+Print Assumptions C11_pv_inc_is_interpreted_source.
+
+(* operator++ of the model (it_next, the `++iter` of Remove(filter)) is the interpreted pvInc.  (operator++'s own wrapper `if (ptIsMovable()) pvInc(); else this = end` is not interpreted: iterators of the model are always movable.) *)
+Theorem C11_it_next_is_interpreted_source :
+  forall (B : Type) (b0 : B) (wf0 : bool) (gs : list (table B)) (bi p : nat),
+         Some (it_next B b0 wf0 (IAt B gs bi p)) =
+         interp_inc B src_inc (fun b : nat => interp_move B b0 wf0 src_inc src_move gs b) gs bi p.
+Proof. exact it_next_is_interpreted_source. Qed.
+Print Assumptions C11_it_next_is_interpreted_source.
+
+(* GetBegin: the statements of HashSet::GetBegin (`if (mCount == 0) return ConstIterator(); return ConstIteratorProxy(first table, 0, bounds(0).GetEnd(), version)`) and of the protected iterator constructor (member initialisers + `pvInc();`) interpreted = the hand model's it_begin -- the `iter = GetBegin()` of Remove(filter) and the start of every traversal. *)
+Theorem C11_it_begin_is_interpreted_source :
+  forall (B : Type) (b0 : B) (wf0 : bool) (s : hset B),
+         interp_begin B b0 wf0 Gen_RelocFacts.get_begin_stmts Gen_RelocFacts.iter_ctor_stmts Gen_RelocFacts.iter_ctor_inits s =
+         Some (it_begin B b0 wf0 s).
+Proof. exact it_begin_is_interpreted_source. Qed.
+Print Assumptions C11_it_begin_is_interpreted_source.
 
 (* Remove(filter) rests on the source.  The statements of HashSet::Remove(const ItemFilter&) are read off the clang AST on every run (astfacts.py -> Gen_RelocFacts.remove_filter_stmts: `initCount = GetCount(); iter = GetBegin(); while (!!iter) { if (itemFilter( *iter )) iter = Remove(iter); else ++iter; } return initCount - GetCount();`) and interpreted on the model state (RemoveIfInterp.v: the loop runs until the end iterator, the filter is applied to the item under the iterator, Remove(iter) = the modelled pvRemove -- generation through find_buckets, tremove, count - 1, iterator re-created at the hole and pvInc'ed --, ++iter = pv_inc).  The interpretation of the CURRENT source equals the hand model's hremove_if for every state and filter; C11_remove_if_any_state / C11_inv_step / C11_history_refines_set are theorems about hremove_if.  Hand-modelled primitives: Remove(iter), operator++ / GetBegin (iterator machine).  Swapping the branches, dropping the else, a different loop condition or return expression changes the generated list and breaks this proof. *)
 Theorem C11_remove_filter_is_interpreted_source :
